@@ -35,6 +35,9 @@ pub use json::ConvertToJsonError;
 
 use magic::FromContext;
 
+#[cfg(feature = "verif-hooks")]
+pub mod verif;
+
 pub mod extractors {
     pub use crate::magic::{Arguments, Identifier, This};
 }
